@@ -151,7 +151,7 @@ def finish(ctx, meta, cmdline):
     for o in ctx.obs:
         counts[o.rule] = counts.get(o.rule, 0) + 1
     for rule, n in ctx.floors.items():
-        if counts.get(rule, 0) < n:
+        if counts.get(rule, 0) < n and not unlisted:
             raise AnalysisError(
                 'rule %s matched %d instance(s), floor is %d - the rule lost '
                 'its anchors' % (rule, counts.get(rule, 0), n))
